@@ -364,7 +364,7 @@ fn many_instances(sets: &mut Sets, st: &mut Stats, n: usize) {
 }
 
 pub fn run(tier: &str, _seed: u64, threads: usize) -> Stats {
-    let n_total = if tier == "thorough" { 1_600_000 } else { 64_000 };
+    let n_total = if tier == "thorough" { 400_000 } else { 64_000 };
     // 4 instances, each shared by threads/4 threads (cross-thread and cross-instance freshness)
     let per = n_total / threads.max(1);
     let all = Arc::new(Mutex::new((Sets::default(), Stats::default())));
@@ -400,7 +400,7 @@ pub fn run(tier: &str, _seed: u64, threads: usize) -> Stats {
     {
         let mut seq = Sets::default();
         sequential_pairs(&mut seq, &mut st);
-        many_instances(&mut seq, &mut st, if tier == "thorough" { 70_000 } else { 1_200 });
+        many_instances(&mut seq, &mut st, if tier == "thorough" { 20_000 } else { 1_200 });
         for (k, d) in &seq.dups {
             if *d > 0 {
                 st.findings.push(Finding {
